@@ -419,8 +419,8 @@ where
             let mut fails: Vec<(u64, Fail)> = Vec::new();
             let lo = c * per;
             let hi = ((c + 1) * per).min(n);
+            let _wd = watch(|| format!("{sub}: sweep elements {lo}..{hi}"));
             for i in lo..hi {
-                let _wd = watch(|| format!("{sub}: sweep element {i}"));
                 if let Err(f) = check(i, &mut stats) {
                     if !fails.iter().any(|(_, g)| g.key == f.key) {
                         fails.push((i, f));
